@@ -1,14 +1,46 @@
-"""C04 — encrypted envelope layout and key schedule."""
+"""C04 — forged or altered packets are refused, never accepted and never crash the client."""
 import vlib
 
 SUB = "c04"
 MODULES = ["Mtv.Props.C04"]
-THEOREMS = []
-RULE = "tbd"
+THEOREMS = [
+    "Mtv.Envelope.openClient_no_panic",
+    "Mtv.Envelope.route_no_panic",
+    "Mtv.Envelope.openClientOrig_panics",
+    "Mtv.Envelope.openClientOrig_accepts_negative_length",
+    "Mtv.Envelope.openClient_sound",
+    "Mtv.Envelope.accepted_is_a_sealing",
+    "Mtv.Envelope.accepted_iff_sealing",
+    "Mtv.Envelope.openClient_refuses_wrong_key",
+    "Mtv.Envelope.openClient_refuses_short_or_unaligned",
+    "Mtv.Envelope.unenc_refuses",
+    "Mtv.Envelope.unenc_refuses_parity_and_length",
+]
+RULE = ("fault enumeration on packets sealed by the harness's own MTProto 1.0 server (body lengths 0, 4, 20, 100; thorough: "
+        "0, 1, 4, 15, 16, 20, 100, 1000): every single-bit flip of the 24-byte header and sampled (thorough: all) ciphertext "
+        "bits, every truncation length 0..n-1, extensions, foreign / spliced / zero key ids, the client-direction sealing, "
+        "wrong-parity msg_ids, block-aligned garbage under the right key id (0..6 blocks), every size 8..56 under the right key "
+        "id, random bytes; and, holding the key, re-sealed packets with declared length in {-2^31, -2^31+1, -2^30, -65536, "
+        "-33..-1 region, len-33..len+33, total-32, total-31, total, total+31..33, 65536, 2^30, 2^31-33..2^31-1} x msg_key span in "
+        "{0, 32, 32+len, total, 32+declared}, and the honest plaintext under a msg_key differing in one bit (every byte). Each "
+        "packet goes through the real DeserializeEncrypted, a share of them through transport.ReadMsg over loopback TCP; "
+        "unencrypted packets: every truncation, declared length len-33..len+33 and extremes, wrong parity. Judge: never a panic; "
+        "an accepted message must be what the independent specification receiver recovers from those bytes and have server "
+        "parity; alterations must be errors; valid (re-)sealings must open to what was sealed. distinct = distinct operation "
+        "lines; every line is also run through the Lean model and compared (outcome class incl. error kind and panic site)")
 
 
 def run(ctx):
-    return vlib.generic_check(ctx, SUB, MODULES, THEOREMS, RULE)
+    ctx.assumptions += [
+        "SHA-1 and AES-256-IGE are parameters of the theorems (hypotheses Prims.Ok); 'a forger without the key cannot produce an "
+        "accepted packet' is cryptographic and NOT a theorem: the theorems show the acceptance set equals the image of the "
+        "specification's sealing under the key",
+        "Go's int is modelled as unbounded (64-bit platform; packet lengths below 2^63)",
+        "the theorems describe DeserializeEncrypted after pending_fixes/C04-declared-length-bounds.patch; the model of the code "
+        "as found (openClientOrig) is kept for the two D3 counterexample theorems",
+    ]
+    return vlib.generic_check(ctx, SUB, MODULES, THEOREMS, RULE,
+                              extra_trusted=["the Go specification server of harness/cmd/vh/x_envelope.go (crypto/sha1, crypto/aes, own IGE loop)"])
 
 
 def replay(ctx, path):
